@@ -345,6 +345,10 @@ func (L *Loader) lookupSpecFn(pkg *types.Package, name string) *SpecFn {
 // resolveType parses a (restricted) Go type expression in the scope of pkg.
 func (L *Loader) resolveType(pkg *types.Package, s string) (types.Type, error) {
 	s = strings.TrimSpace(s)
+	if strings.Contains(s, " / ") {
+		// a full import path went through the expression parser: "(((*a / b) / c) / p.T)" is "*a/b/c/p.T"
+		s = strings.NewReplacer("(", "", ")", "", " ", "").Replace(s)
+	}
 	switch {
 	case strings.HasPrefix(s, "*"):
 		t, err := L.resolveType(pkg, s[1:])
